@@ -1082,7 +1082,43 @@ class Gen:
         self.features.add('same-object-twice')
         which = rng.choice(['x+x', 'x*x', 'x-x', 'x/x', 'x*x+x', '(a+b)+(a+b)',
                             'op(x,x)', 'sum3(x,x,y)', 'madd(x,x,x)', 'src(x,x)',
-                            '(-x)-(-x)', 'dead-cascade'])
+                            '(-x)-(-x)', 'dead-cascade', 'optimisable-twice',
+                            'optimisable-twice'])
+        if which == 'optimisable-twice':
+            # a sum the optimiser folds (Sum3 / MulAdd / a - b), read on two
+            # inputs of ONE consumer
+            kind = rng.choice(['sum3', 'muladd', 'addneg'])
+            if kind == 'sum3':
+                t = self.mk_bin('+', x, self.pick(pconst=0.2))
+                y = t and self.mk_bin('+', t, self.pick(pconst=0.3))
+            elif kind == 'muladd':
+                t = self.mk_bin('*', x, self.pick(pconst=0.3))
+                y = t and self.mk_bin('+', t, self.pick(pconst=0.4))
+            else:
+                n = self.mk_un('neg', x)
+                o = self.pick_node()
+                y = n and o and self.mk_bin('+', o, n)
+            if not y:
+                return None
+            self.features.add('optimisable-used-twice')
+            inf = self.info[y[1]]
+            use = rng.choice(['out', 'out', 'mul', 'op', 'sum3', 'pan'])
+            if use == 'out' or (use == 'pan' and not (inf.hi == inf.lo == 2)):
+                m = 'ar' if inf.hi == inf.lo == 2 and not inf.semc else 'kr'
+                if m == 'kr' and inf.hi == 2:
+                    return y
+                return self.add({'k': 'sink', 'cls': 'Out', 'm': m,
+                                 'bus': ['c', rng.randrange(0, 8)],
+                                 'chans': [y, y]})
+            if use == 'mul':
+                return self.mk_bin('*', y, y)
+            if use == 'op':
+                return self.mk_bin(rng.choice(_OPAQUE_BIN), y, y)
+            if use == 'sum3':
+                return self.add({'k': 'sumn', 'args': [y, self.pick(), y]})
+            t = self.tag()
+            return self.add({'k': 'ugen', 'cls': 'Pan2', 'm': 'ar',
+                             'args': [y, y, ['c', t]], 'tag': t})
         if which == '(-x)-(-x)':
             n = self.mk_un('neg', x) if rng.random() < 0.5 else \
                 self.mk_bin('-', ['c', 0], x)
@@ -1696,17 +1732,43 @@ def random_name(rng):
 
 def gen_program_c02(rng, kind, name=None):
     """kind: 'plain' (a c01 program, array controls, gate), 'mc', 'wf', 'big',
-    'variants', 'invalid:<INVALID_KINDS>'."""
+    'wrap', 'bigarray' (250-700 control slots, few names), 'variants',
+    'invalid:<INVALID_KINDS>'."""
     big = kind == 'big'
     g = Gen2(rng, 'c02', name=name or random_name(rng),
              max_nodes=420 if big else 70, max_depth=7, big_consts=big)
     g.folding_agnostic = rng.random() < 0.15
     g.params(rng.choice([0, 1, 2, 3, 4, 6, 8]), arrays=True,
              gate=rng.random() < 0.4)
+    if kind == 'bigarray':
+        # few names, hundreds of control slots: 1-3 array controls whose
+        # sizes add up to 250..700 values
+        arrays = [p for p in g.prog['params'] if isinstance(p['default'], list)]
+        total = rng.choice([250, 252, 253, 254, 255, 256, 257, 300, 512, 700,
+                            rng.randint(250, 700)])
+        if not arrays:
+            g.prog['params'].append({'name': 'arr', 'rate': rng.choice(
+                ['kr', 'kr', 'ir', 'tr', 'ar']), 'default': [0.5, 1.5], 'lag': 0})
+            arrays = [g.prog['params'][-1]]
+            g.add({'k': 'param', 'i': len(g.prog['params']) - 1})
+        arrays = arrays[:3]
+        for k, p in enumerate(arrays):
+            n = total // len(arrays) + (total % len(arrays) if k == 0 else 0)
+            p['default'] = [rng.choice(SMALL_CONSTS) if rng.random() < 0.5
+                            else rng.randrange(-4000, 4000) / 8
+                            for _ in range(max(n, 2))]
+        g2 = Gen2(rng, 'c02', name=g.prog['name'], max_nodes=90)
+        g2.folding_agnostic = g.folding_agnostic
+        g2.prog['params'] = g.prog['params']
+        g2.prog['rates_mode'] = g.prog['rates_mode']
+        for i in range(len(g2.prog['params'])):
+            g2.add({'k': 'param', 'i': i})
+        g = g2
+        g.features.add('big-array-control')
     for i, inf in enumerate(list(g.info)):       # channels of array controls
         if g.prog['nodes'][i]['k'] == 'param' and inf.kind == 'list':
             for c in range(inf.elems):
-                if rng.random() < 0.6:
+                if rng.random() < (0.6 if inf.elems < 16 else 4.0 / inf.elems):
                     g.add({'k': 'idx', 'a': ['n', i], 'i': c})
     for _ in range(rng.randint(1, 4)):
         g.mk_src(rng.choice(['SinOsc', 'LFSaw', 'Impulse', 'WhiteNoise', 'Rand',
